@@ -131,6 +131,14 @@ def run(tier, seed):
         [{"kind": "register", "wkind": "CommonNoun", "reading": "らーめん", "word": "拉麺"}, {"kind": "convert", "input": "らーめん", "context": "Normal"}, {"kind": "restart"},
          {"kind": "convert", "input": "らーめん", "context": "Normal"}],
     ]
+    # semantically odd guessed registrations: every ending the guesser recognises on an empty / ASCII / mixed-width stem reading
+    endings = [c + "ない" for c in "かこがごさそたとなのばぼまもらろわおいきぎしじちにびみりえけげせぜてでねべめれ"] + ["い", "だ", "しい"]
+    for sr in ["", "k", "kk", "é", "aあ", "あa", "ー"]:
+        hist = []
+        for e in endings:
+            hist.append({"kind": "register", "wkind": "Guess", "reading": sr + e, "word": "欠" + e})
+        hist += [{"kind": "convert", "input": "くるまで", "context": "Normal"}, {"kind": "restart"}, {"kind": "convert", "input": "くるまで", "context": "Normal"}]
+        corpus.append(hist)
     items = [(fixed_base, c) for c in corpus] + items
     runs = run_histories(items, threads=12)
     nontrivial = sum(1 for hr in runs if predicate(res, hr))
